@@ -209,6 +209,15 @@ def main(prop, tier='quick', seed=0, replay=None, only=None, jobs=None):
         print('REPRODUCED' if bad else 'NOT-REPRODUCED')
         return 1 if bad else 0
 
+    # ---- 2a. stubs vs real libraries (slice reference, SymList, automap model) -------------------
+    try:
+        from selftest import quick as _quick
+        selftest_counts = _quick.run_all()
+    except Exception as ex:  # noqa: BLE001
+        print('HARNESS-ERROR selftest failed:', repr(ex)[:500])
+        write_evidence(prop, tier, seed, h, conds, [], [], [], 0, time.time() - t_start, harness_errors=['selftest: ' + repr(ex)[:300]])
+        return EXIT_HARNESS_ERROR
+
     # ---- 2. self-validation: concrete traces in both worlds, reachability --------------------
     rng = random.Random(seed)
     n_tr = int(getattr(h, 'TRACES_QUICK', 12)) if tier == 'quick' else int(getattr(h, 'TRACES_THOROUGH', 40))
